@@ -4,16 +4,17 @@
      Agreement    no two validators ever hold different blocks at the same height
      Acceptable   every block a validator committed is accepted by every other ledger it is fed to
      Progress     in an all-honest, fully-delivering phase the lowest height grows within `bound` rounds
-     TxIncluded   a valid transaction pooled by every validator at the start of such a phase is in a block
-                  within `bound` rounds
-   Events: init | accept | feed | syncstart | syncround | syncend | txgiven ; other events are ignored here. *)
+     TxIncluded   a valid transaction pooled by every validator at the start of such a phase is in a block once
+                  every validator is 3 blocks past the highest block that existed at the start of the phase
+                  (the first of those blocks may have been proposed before the phase began)
+   Events: init | accept | queued (block assembled by a validator, witness checked on its peers' ledgers) | feed | syncstart | syncround | syncend | txgiven ; other events are ignored here. *)
 EXTENDS TraceIO, FiniteSets
 
 VARIABLES l, chain, sync
 vars == <<l, chain, sync>>
 
 \* chain: function height -> block hash agreed so far;  sync: [on, base, rounds, bound, txs]
-NoSync == [on |-> FALSE, base |-> 0, rounds |-> 0, bound |-> 0, txs |-> {}]
+NoSync == [on |-> FALSE, base |-> 0, rounds |-> 0, bound |-> 0, txs |-> {}, messy |-> FALSE, maxh0 |-> 0]
 Init == l = 1 /\ chain = <<>> /\ sync = NoSync
 
 HasH(h) == h \in DOMAIN chain
@@ -30,18 +31,25 @@ Step ==
          [] e.event = "feed" ->
               /\ UNCHANGED <<chain, sync>>
               /\ Report(l, NameIf(e.ok, "Acceptable") \cup NameIf(~HasH(e.h) \/ chain[e.h] = e.hash, "Agreement"), [ev |-> e])
+         [] e.event = "queued" ->
+              /\ UNCHANGED <<chain, sync>>
+              /\ Report(l, NameIf(e.witness_ok, "Acceptable") \cup NameIf(~HasH(e.h) \/ chain[e.h] = e.hash, "Agreement"), [ev |-> e])
          [] e.event = "syncstart" ->
-              /\ sync' = [on |-> TRUE, base |-> e.minh, rounds |-> 0, bound |-> e.bound, txs |-> {e.txs[i] : i \in DOMAIN e.txs}]
+              /\ sync' = [on |-> TRUE, base |-> e.minh, rounds |-> 0, bound |-> e.bound, txs |-> {e.txs[i] : i \in DOMAIN e.txs},
+                          messy |-> e.messy, maxh0 |-> e.maxh]
               /\ UNCHANGED chain
          [] e.event = "syncround" ->
               /\ UNCHANGED chain
               /\ IF e.minh > sync.base
                  THEN sync' = [sync EXCEPT !.base = e.minh, !.rounds = 0, !.txs = @ \ {e.included[i] : i \in DOMAIN e.included}]
                  ELSE sync' = [sync EXCEPT !.rounds = @ + 1, !.txs = @ \ {e.included[i] : i \in DOMAIN e.included}]
-              /\ Report(l, NameIf(e.minh > sync.base \/ sync.rounds + 1 <= sync.bound, "Progress"), [ev |-> e, base |-> sync.base, rounds |-> sync.rounds])
+              \* after an asynchronous period the height left over from it is outside the liveness clause ("when all validators
+              \* are honest and messages are delivered"): rounds are judged once every validator is past it
+              /\ Report(l, NameIf((sync.messy /\ e.minh <= sync.maxh0) \/ e.minh > sync.base \/ sync.rounds + 1 <= sync.bound, "Progress"),
+                        [ev |-> e, base |-> sync.base, rounds |-> sync.rounds])
          [] e.event = "syncend" ->
               /\ sync' = NoSync /\ UNCHANGED chain
-              /\ Report(l, NameIf(e.blocks < 2 \/ sync.txs = {}, "TxIncluded"), [ev |-> e, pending |-> sync.txs])
+              /\ Report(l, NameIf(~e.reached \/ sync.txs = {}, "TxIncluded"), [ev |-> e, pending |-> sync.txs])
          [] OTHER -> UNCHANGED <<chain, sync>>
 
 TraceSpec == Init /\ [][Step]_vars
